@@ -267,6 +267,16 @@ class Ref:
             pass
         return complex(val)
 
+    def chiAB_z(self, A, B, z):
+        """analytic continuation of the bosonic Lehmann sum to a complex frequency z != 0 (no zero-pole term)"""
+        w = self.w
+        P = self.E[None, :] - self.E[:, None]
+        M = A * B.T
+        nd = np.abs(P) >= DEG_TOL
+        with np.errstate(divide="ignore", invalid="ignore"):
+            frac = np.where(nd, (w[None, :] - w[:, None]) / (z - np.where(nd, P, 1.0)), 0.0)
+        return complex(np.sum(M * frac))
+
     def chiAB_tau(self, A, B, tau):
         """<A(tau) B(0)>, 0<=tau<=beta"""
         w = self.w
@@ -280,8 +290,8 @@ class Ref:
                            w[None, :] * np.exp((b - tau) * np.where(pos, 0, P)))
         return complex(np.sum(M * val))
 
-    def chi_drop_bound(self, A, B, n, tol=1e-8):
-        """documented-drop bound for the susceptibility at bosonic n (same reasoning as for G)"""
+    def chi_drop_bound(self, A, B, n, tol=1e-8, z=None):
+        """documented-drop bound for the susceptibility at bosonic n, or at a complex frequency z (same reasoning as for G)"""
         W = 2 * n * math.pi / self.beta
         A2 = np.abs(A) ** 2
         B2 = np.abs(B) ** 2
@@ -300,7 +310,7 @@ class Ref:
                     continue
                 S = abs(self.w[GA[0]] - self.w[GB[0]]) * Fa * Fb
                 P = self.E[GB].mean() - self.E[GA].mean()
-                d = abs(1j * W - P)
+                d = abs((1j * W if z is None else z) - P)
                 cnt = len(GA) * len(GB)
                 bound += min(cnt * tol, S) / d if (cnt > 1 or S < tol * (1 + 1e-6)) else 0.0
                 bound += tol / d if S > 0 else 0.0
